@@ -1,6 +1,8 @@
 import FgaVerif.Proofs.Weights
 import FgaVerif.Proofs.ReachComplete
 import FgaVerif.Proofs.WAssign
+import FgaVerif.Proofs.WAssignWild
+import FgaVerif.Proofs.WGraph
 /-! # C11 — wildcard sets are the reachable public types (specification side)
 
     As for C04, the real wildcard lists (nodes and edges, every forced traversal order) are compared
@@ -26,7 +28,15 @@ import FgaVerif.Proofs.WAssign
       assignment succeeds then no wildcard list of a node or of an edge contains a duplicate.  It is an
       invariant of the whole computation (`Proofs/WAssign.lean`: every writer copies a duplicate-free
       list or appends an element it has just found absent; the depth-first recursion, cycle
-      resolution and the dependency fix-ups preserve it), not a property of the final sets only. -/
+      resolution and the dependency fix-ups preserve it), not a property of the final sets only.
+
+    The port IS now proved to compute the reachable public types (last section, `Proofs/WAssignWild.lean`), as
+    post-conditions of a successful assignment for every graph and start order: `algorithm_edge_wildcards_on_success`
+    (edge into `T:*` ↦ `[T]`, into a type ↦ `[]`, otherwise the same set as the final list of the target, also on
+    and behind tuple cycles), `algorithm_node_wildcards_on_success` (node list = union of its edges' lists, every
+    node kind), `algorithm_wildcards_sound` / `_complete` / `_exact` (the list of a visited node is exactly the set
+    of `T` with a reachable `T:*` node), `algorithm_no_wildcard_reachable_empty`; with the counterexample
+    `placeholder_named_type_breaks_wildcards` for the side condition `noPHTypesB`. -/
 namespace FgaVerif.Props.C11
 open FgaVerif.Spec.Weights
 
@@ -86,5 +96,154 @@ example : (match assignWeights algoDemo ["doc#b"] with
     | .error _ => ([], [], [])) =
     ([("bot", FgaVerif.Model.WAssign.infinite), ("user", FgaVerif.Model.WAssign.infinite)], ["user", "bot"], ["bot", "user"]) := by
   decide +kernel
+
+/-! ## the wildcard lists computed by the algorithm (`Proofs/WAssignWild.lean`)
+
+    Post-conditions of `assignWeights g order = .ok st`, for every graph and every start order.  Hypotheses (all
+    evaluated by Boolean checks): `noPHTypesB g` — no terminal type is named like a cycle placeholder `R#…`
+    (needed: `placeholder_named_type_breaks_wildcards` below); `srcOKB g` — every edge is stored under its own
+    source (an artefact of the proof of the edge clause; true of every built graph: `built_graph_srcOK`);
+    `termSinkB g` — types and `T:*` nodes have no outgoing edges (only for the exact reading). -/
+section algorithm
+open FgaVerif.Model.WGraph FgaVerif.Model.WAssign
+
+/-- **E. the edge clause**: an edge into `T:*` carries exactly `[T]`, an edge into a plain type carries nothing,
+    and every other edge carries the same set as the FINAL list of its target — also when the edge was computed
+    while its target was still in progress on a tuple cycle (the dependency fix-ups complete it) -/
+theorem algorithm_edge_wildcards_on_success (g : G) (hn : noPHTypesB g = true) (hs : srcOKB g = true)
+    (order : List String) (st : AState) (h : assignWeights g order = .ok st) (v : String) (hv : v ∈ st.visited)
+    (i : Nat) (e : WEdge) (he : (edgesOf g v)[i]? = some e) :
+    (nodeType g e.dst = .wildcard → aget (v, i) st.edgeWild = [(e.dst.dropEnd 2).toString]) ∧
+    (nodeType g e.dst = .specificType → aget (v, i) st.edgeWild = []) ∧
+    (isTerminal (nodeType g e.dst) = false → ∀ T, T ∈ aget (v, i) st.edgeWild ↔ T ∈ aget e.dst st.nodeWild) :=
+  ⟨(assignWeights_terminal_edge_wild g order st h v hv i e he).1,
+    (assignWeights_terminal_edge_wild g order st h v hv i e he).2,
+    assignWeights_edge_wild g (noPHTypesB_sound g hn) (srcOKB_sound g hs) order st h v hv i e he⟩
+
+/-- **N. the node clause**: the list of a node is the union of the lists of its edges — for EVERY node kind: the
+    strategies for intersections and exclusions (which may drop a type from the weights) never prune a wildcard
+    list (`intersection_keeps_dropped_type` below); no hypothesis on the graph -/
+theorem algorithm_node_wildcards_on_success (g : G) (order : List String) (st : AState)
+    (h : assignWeights g order = .ok st) (v T : String) :
+    T ∈ aget v st.nodeWild ↔ ∃ i, T ∈ aget (v, i) st.edgeWild := by
+  rw [assignWeights_node_wild g order st h v T]
+  constructor
+  · rintro ⟨⟨a, i⟩, rfl, hT⟩; exact ⟨i, hT⟩
+  · rintro ⟨i, hT⟩; exact ⟨(v, i), rfl, hT⟩
+
+/-- **R, sound**: every listed type is the type of a wildcard node reachable by at least one edge -/
+theorem algorithm_wildcards_sound (g : G) (hn : noPHTypesB g = true) (order : List String) (st : AState)
+    (h : assignWeights g order = .ok st) (v T : String) (hT : T ∈ aget v st.nodeWild) : ReachesWild g v T :=
+  (assignWeights_wild_sound g (noPHTypesB_sound g hn) order st h).1 v T hT
+
+/-- a node from which no public restriction is reachable has an empty list -/
+theorem algorithm_no_wildcard_reachable_empty (g : G) (hn : noPHTypesB g = true) (order : List String) (st : AState)
+    (h : assignWeights g order = .ok st) (v : String) (hno : ∀ T, ¬ ReachesWild g v T) : aget v st.nodeWild = [] := by
+  cases hw : aget v st.nodeWild with
+  | nil => rfl
+  | cons T rest => exact absurd (algorithm_wildcards_sound g hn order st h v T (by rw [hw]; simp)) (hno T)
+
+/-- **R, complete** — for every graph, not only union/relation-only ones: every `T:*` reachable from a visited node
+    through relations and operators is listed -/
+theorem algorithm_wildcards_complete (g : G) (hn : noPHTypesB g = true) (hs : srcOKB g = true) (order : List String)
+    (st : AState) (h : assignWeights g order = .ok st) (v : String) (hv : v ∈ st.visited) (T : String)
+    (hp : WildPath g v T) : T ∈ aget v st.nodeWild :=
+  assignWeights_wild_complete g (noPHTypesB_sound g hn) (srcOKB_sound g hs) order st h v hv T hp
+
+/-- the special case announced in the plan (the hypothesis on operators is not used) -/
+theorem algorithm_wildcards_complete_no_ops (g : G) (hn : noPHTypesB g = true) (hs : srcOKB g = true)
+    (_hops : ∀ n, nodeType g n = .operator → nodeLabel g n = "union") (order : List String)
+    (st : AState) (h : assignWeights g order = .ok st) (v : String) (hv : v ∈ st.visited) (T : String)
+    (hp : WildPath g v T) : T ∈ aget v st.nodeWild :=
+  algorithm_wildcards_complete g hn hs order st h v hv T hp
+
+/-- **C11 for the algorithm**: the list of a visited node contains `T` exactly when a `T:*` node is reachable -/
+theorem algorithm_wildcards_exact (g : G) (hn : noPHTypesB g = true) (hs : srcOKB g = true) (hts : termSinkB g = true)
+    (order : List String) (st : AState) (h : assignWeights g order = .ok st) (v : String) (hv : v ∈ st.visited)
+    (T : String) : T ∈ aget v st.nodeWild ↔ ReachesWild g v T :=
+  assignWeights_wild_exact g (noPHTypesB_sound g hn) (srcOKB_sound g hs) (termSinkB_sound g hts) order st h v hv T
+
+/-- every graph produced by the builder stores its edges under their sources -/
+theorem built_graph_srcOK (m : FgaVerif.Model.Model) (g : G) (h : build m = .ok g) : SrcOK g :=
+  fun r e he => ((build_inv m g h).edges r.1).src_eq e (List.mem_of_getElem? he)
+
+/-! ### non-vacuity on the tuple cycle `algoDemo` (`a: [user:*, doc#b]`, `b: [bot:*, doc#a]`, started from `doc#b`):
+    the hypotheses hold; `(doc#a,1) → doc#b` is computed while `doc#b` is in progress and ends with both types -/
+example : noPHTypesB algoDemo = true ∧ srcOKB algoDemo = true ∧ termSinkB algoDemo = true := by decide +kernel
+
+example : (match assignWeights algoDemo ["doc#b"] with
+    | .ok st => (st.visited, aget ("doc#a", 0) st.edgeWild, aget ("doc#a", 1) st.edgeWild, aget "doc#b" st.nodeWild)
+    | .error _ => ([], [], [], [])) = (["doc#a", "doc#b"], ["user"], ["bot", "user"], ["bot", "user"]) := by
+  decide +kernel
+example : (match assignWeights algoDemo ["doc#b"] with
+    | .ok st => (aget ("doc#b", 0) st.edgeWild, aget ("doc#b", 1) st.edgeWild, aget "doc#a" st.nodeWild)
+    | .error _ => ([], [], [])) = (["bot"], ["user", "bot"], ["user", "bot"]) := by
+  decide +kernel
+
+/-- the reachability reading is inhabited: `user:*` is reached from `doc#b` through `doc#a` -/
+example : ReachesWild algoDemo "doc#b" "user" ∧ WildPath algoDemo "doc#b" "user" := by
+  have s1 : EStep algoDemo "doc#b" "doc#a" :=
+    ⟨⟨"doc#b", "doc#a", .direct, "", ["none"]⟩, by rw [show edgesOf algoDemo "doc#b" = [_, _] from rfl]; simp, rfl⟩
+  have s2 : EStep algoDemo "doc#a" "user:*" :=
+    ⟨⟨"doc#a", "user:*", .direct, "", ["none"]⟩, by rw [show edgesOf algoDemo "doc#a" = [_, _] from rfl]; simp, rfl⟩
+  have hw : IsWild algoDemo "user:*" "user" := ⟨by decide, by decide +kernel⟩
+  exact ⟨⟨"doc#a", s1, "user:*", EPath.single s2, hw⟩, WildPath.via s1 (by decide) (WildPath.direct s2 hw)⟩
+
+/-- the node clause holds at intersections although a type is dropped from the weights: `doc#v = a and b` with
+    `a: [user, bot:*]`, `b: [user:*]` keeps `bot` in the wildcard list while the weights keep only `user` -/
+def interDemo : G := {
+  nodes := [⟨"doc#v", "doc#v", .typeAndRelation⟩, ⟨"intersection:0", "intersection", .operator⟩,
+            ⟨"doc#a", "doc#a", .typeAndRelation⟩, ⟨"doc#b", "doc#b", .typeAndRelation⟩,
+            ⟨"user", "user", .specificType⟩, ⟨"user:*", "user:*", .wildcard⟩, ⟨"bot:*", "bot:*", .wildcard⟩],
+  edges := [("doc#v", [⟨"doc#v", "intersection:0", .rewrite, "", ["none"]⟩]),
+            ("intersection:0", [⟨"intersection:0", "doc#a", .rewrite, "", ["none"]⟩, ⟨"intersection:0", "doc#b", .rewrite, "", ["none"]⟩]),
+            ("doc#a", [⟨"doc#a", "user", .direct, "", ["none"]⟩, ⟨"doc#a", "bot:*", .direct, "", ["none"]⟩]),
+            ("doc#b", [⟨"doc#b", "user:*", .direct, "", ["none"]⟩])] }
+
+theorem intersection_keeps_dropped_type :
+    (match assignWeights interDemo [] with
+      | .ok st => (aget "intersection:0" st.nodeW, aget "intersection:0" st.nodeWild, aget "doc#v" st.nodeWild)
+      | .error _ => ([], [], [])) = ([("user", 1)], ["bot", "user"], ["bot", "user"]) := by
+  decide +kernel
+
+/-- `noPHTypesB` is needed for E and for R: with a terminal type named `R#doc#b` the scan records a spurious
+    dependency of `doc#x → doc#a` on `doc#b`, and the resolution of `doc#b` copies `user` onto that edge and onto
+    `doc#x`, although `doc#a` has no wildcard and `doc#x` reaches no wildcard node -/
+def phWild : G := {
+  nodes := [⟨"doc#b", "doc#b", .typeAndRelation⟩, ⟨"doc#x", "doc#x", .typeAndRelation⟩, ⟨"doc#a", "doc#a", .typeAndRelation⟩,
+            ⟨"R#doc#b", "R#doc#b", .specificType⟩, ⟨"user:*", "user:*", .wildcard⟩],
+  edges := [("doc#b", [⟨"doc#b", "doc#x", .direct, "", ["none"]⟩, ⟨"doc#b", "user:*", .direct, "", ["none"]⟩]),
+            ("doc#x", [⟨"doc#x", "doc#a", .direct, "", ["none"]⟩]),
+            ("doc#a", [⟨"doc#a", "R#doc#b", .direct, "", ["none"]⟩])] }
+
+theorem placeholder_named_type_breaks_wildcards :
+    noPHTypesB phWild = false ∧ srcOKB phWild = true ∧ termSinkB phWild = true ∧
+    (match assignWeights phWild ["doc#b"] with
+      | .ok st => (st.visited, aget ("doc#x", 0) st.edgeWild, aget "doc#a" st.nodeWild, aget "doc#x" st.nodeWild)
+      | .error _ => ([], [], [], [])) = (["doc#a", "doc#x", "doc#b"], ["user"], [], ["user"]) ∧
+    ¬ ReachesWild phWild "doc#x" "user" := by
+  refine ⟨by decide +kernel, by decide +kernel, by decide +kernel, by decide +kernel, ?_⟩
+  rintro ⟨d, ⟨e, he, rfl⟩, w, hp, hw⟩
+  have he' : e = ⟨"doc#x", "doc#a", .direct, "", ["none"]⟩ := by
+    have : edgesOf phWild "doc#x" = [⟨"doc#x", "doc#a", .direct, "", ["none"]⟩] := by decide
+    rw [this] at he; simpa using he
+  subst he'
+  cases hp with
+  | refl => exact absurd hw.1 (by decide)
+  | step hs hp' =>
+    obtain ⟨e2, he2, rfl⟩ := hs
+    have he2' : e2 = ⟨"doc#a", "R#doc#b", .direct, "", ["none"]⟩ := by
+      have : edgesOf phWild "doc#a" = [⟨"doc#a", "R#doc#b", .direct, "", ["none"]⟩] := by decide
+      rw [this] at he2; simpa using he2
+    subst he2'
+    cases hp' with
+    | refl => exact absurd hw.1 (by decide)
+    | step hs2 _ =>
+      obtain ⟨e3, he3, _⟩ := hs2
+      have : edgesOf phWild "R#doc#b" = [] := by decide
+      rw [this] at he3
+      cases he3
+
+end algorithm
 
 end FgaVerif.Props.C11
